@@ -286,6 +286,35 @@ def run(chk):
         chk.ok("C04.length", tr[0], "a chunk longer than the remaining declared length is truncated to it")
     else:
         chk.violation("C04.length", wr, "chunk = chunk[:self.length]", "when length < len(chunk)", "excess body bytes are not truncated")
+    # the payload side of the same promise: write_with_length(writer, n) never hands more than n bytes to the writer (on the client the
+    # StreamWriter has no declared length of its own, so this slice is the only thing that keeps the body within Content-Length)
+    plm = repo.module(PL)
+    n_cap = 0
+    for cls in plm.classes.values():
+        fn = cls.methods.get("write_with_length")
+        if fn is None:
+            continue
+        args = [a.arg for a in fn.node.args.args]
+        if len(args) < 3:
+            continue
+        wname, lname = args[1], args[2]
+        aliases = {lname} | {k for k, ds in norm.fn_defs(fn.node).defs.items() if any(v is not None and norm.raw(v) == lname for _d, v in ds)}
+        writes = [c for c in prog.calls_in(fn.node) if norm.raw(c.func) == f"{wname}.write"]
+        if not writes:
+            if cls.name == "Payload" and K.exprs(fn, f"self.write({wname})"):
+                chk.ok("C04.length", fn, "Payload.write_with_length: base-class default for subclasses that do not override it (delegates to write(); documented as unconstrained)")
+            continue
+        for c in writes:
+            n_cap += 1
+            unlimited = PC.has_lit(PC.pc(c), [(f"{a} is None", True) for a in sorted(aliases)], True) is not None
+            x = c.args[0] if c.args else None
+            capped = isinstance(x, ast.Subscript) and isinstance(x.slice, ast.Slice) and x.slice.lower is None and x.slice.upper is not None and norm.raw(x.slice.upper) in aliases
+            if unlimited or capped:
+                chk.ok("C04.length", c, f"{cls.name}.write_with_length: `{K.short(c, 50)}` " + ("only when no length was declared" if unlimited else "truncated to the remaining declared length"))
+            else:
+                chk.violation("C04.length", c, K.short(c), f"{wname}.write(<data>[:{sorted(aliases)[0]}]) | under `{lname} is None`",
+                              f"{cls.name}.write_with_length hands a chunk to the writer without truncating it to the remaining declared length: a read that returns more bytes than asked for (text-mode files count characters; the first read is uncapped when the remainder is 0) puts surplus bytes on the connection after the declared body")
+    chk.expect_count("C04.length", n_cap, 7, "writer.write calls in write_with_length implementations")
     # ---- shared ------------------------------------------------------------------------------------------------------------------------
     from rules import C02, C19
 
